@@ -13,6 +13,7 @@ def dispatch (j : Json) : Except String Json := do
   | "cutoff" => handleCutoff op j
   | "expr" => handleExpr op j
   | "lang" => handleLang op j
+  | "trace" => handleTrace op j
   | _ => throw s!"unknown model {m}"
 
 def step (line : String) : String :=
